@@ -58,7 +58,7 @@ check("lslocks accepts a consistent lock order", len(blocked) == 0)
 
 # 3. LsSync replay: a schedule with one corrupted expected state must be reported as diverged
 consts = dict(Uris='{"u1"}', Texts='{"t1"}', MaxMsgs=2, MsgKinds='{"open","change","close"}', MaxCfg=0, MaxDisk=0, OnDisk='{}',
-              InitOpen='{}', Outside='{}', CfgAddsLib='FALSE',
+              InitOpen='{}', Outside='{}', CfgAddsLib='FALSE', RenameClears='FALSE',
               EnableReindex='FALSE', InlineOpen='TRUE', InlineChange='TRUE', InlineClose='TRUE')
 cfg = os.path.join(work, "LsSync_self")
 open(cfg + ".cfg", "w").write("SPECIFICATION Spec\nVIEW view\nCONSTANTS\n" + "".join("  %s = %s\n" % kv for kv in consts.items()) + "INVARIANTS Emit\n")
